@@ -1,6 +1,8 @@
 import NimaVerif.Lemmas.Footprint
 /-! `onLayer`, `setValue` / `removeValue` with a scope selector: unfolding lemmas. -/
 namespace Nima
+-- name tokens are compared by spelling in this file (see `NameCmp` in Model/Edit.lean)
+attribute [local instance] NameCmp.spelled
 
 open Node EditM
 
